@@ -62,7 +62,18 @@ def run_shard(spec, res):
             snap = svc.app.snapshot(svc.app.db_path + '.c02')
             res.count('worlds')
             for k in range(spec['queries']):
-                q = queries.gen_ac_query(rng, w, view=v if rng.random() < 0.6 else None)
+                if k % 6 == 5 and v.roots:
+                    # aimed families (see C03): classes only different trees
+                    # offer, identical filters on several groups
+                    if k % 12 == 5:
+                        q = queries.gen_disjoint_classes_query(rng, w, v)
+                        res.count('disjoint_classes_queries')
+                    else:
+                        q = queries.gen_shared_filter_query(rng, w, v)
+                        res.count('shared_filter_queries')
+                else:
+                    q = queries.gen_ac_query(
+                        rng, w, view=v if rng.random() < 0.6 else None)
                 ver = q['version']
                 path = queries.to_path('/allocation_candidates',
                                        queries.ac_pairs(q, rng))
